@@ -68,7 +68,10 @@ def mk_node(ntype: str, hostname: str, **cfg):
 
     cls = Node._registry[ntype]
     c = {"type": ntype, "hostname": hostname}
+    airspace = cfg.pop("airspace", None)
     c.update(cfg)
+    if airspace is not None:
+        return cls.from_config(config=c, airspace=airspace)
     return cls.from_config(config=c)
 
 
